@@ -110,6 +110,13 @@ class ScopeLog(_Log):
         st.assume(V.is_str(self.prefix))
         for f in ("label", "trace_id", "identifier"):          # declared `str` attributes (type invariant of the input)
             st.assume(V.is_str(st.get(self.obj, f)))
+        # the scope may be in any stage of its life: running, left, completed (a task that outlives its scope still logs
+        # through it - helpers such as retry do, between attempts)
+        fut = st.get(self.obj, "_completed")
+        st.assume(z3.And(V.is_ref(fut), V.addr(fut) >= 0, V.addr(fut) < 1_000_000, V.addr(fut) != V.addr(lg)))
+        st.declare_class(fut, "Future")
+        st.assume(V.is_int(st.get(fut, "$fstate")))
+        st.assume(V.is_bool(st.get(self.obj, "_finished")))
         self.level = V.VInt(st.fresh("level", I))
         self.message = V.VStr(st.fresh("message", I))
         self.args = sym_tuple(it, "args")
@@ -307,3 +314,8 @@ from .C02 import AsyncScope as _AsyncScope, SyncScope as _SyncScope, variant as 
 
 _c19 = lambda n: n.startswith("C02-P0") or "MetricsContext-variable-is-what-it-was" in n      # noqa: E731
 CONTRACTS = CONTRACTS + [_variant(_AsyncScope, "C19", _c19), _variant(_SyncScope, "C19", _c19)]
+
+# "... in the creating task and in spawned tasks": a spawned task logs through the scope that was current where it was spawned -
+# it runs in a snapshot of the context taken at the spawn point, its own copy (C03-P1 of TaskGroupContext.run / ctx.spawn)
+from .C06 import Run as _Run, Spawn as _Spawn      # noqa: E402
+CONTRACTS = CONTRACTS + [_variant(_Run, "C19", ("C03-P1",)), _variant(_Spawn, "C19", ("C03-P1",))]
